@@ -523,6 +523,7 @@ func (f *fakeSrv) mutate(frs []sfrag, mi, mr, isOpen bool) ([]sfrag, bool, bool,
 // ---------------------------------------------------------------- running the real scanner
 
 var closeWaitTimeouts int
+var expectXTimeouts int
 
 // renewEvery is the lease renewal interval of the renewing scans; their consumer pauses for a few
 // intervals now and then, so that renewals happen in every state of the scan.
@@ -858,7 +859,14 @@ func runScan(c *scanCase, ch *chooser, plan endPlan, cfg runCfg) runOut {
 		want := f.expectX
 		f.mu.Unlock()
 		if want != "" {
-			deadline := time.Now().Add(500 * time.Millisecond)
+			// (a tree in which that close request never comes would cost the full wait on every
+			// such case: after ten time-outs the wait is cut short — those cases are failures anyway)
+			w := 500 * time.Millisecond
+			if expectXTimeouts >= 10 {
+				w = 5 * time.Millisecond
+			}
+			deadline := time.Now().Add(w)
+			arrived := false
 			for time.Now().Before(deadline) {
 				f.mu.Lock()
 				seen := false
@@ -869,9 +877,13 @@ func runScan(c *scanCase, ch *chooser, plan endPlan, cfg runCfg) runOut {
 				}
 				f.mu.Unlock()
 				if seen {
+					arrived = true
 					break
 				}
 				runtime.Gosched()
+			}
+			if !arrived {
+				expectXTimeouts++
 			}
 		}
 	}
